@@ -116,40 +116,32 @@ Theorem C19_summary_description_split : forall docs s,
     nonblank (opt_str (description (extract docs))) = flat_map nonblank rest.
 Proof. exact summary_description_split. Qed.
 
-(* no text of the comment itself is lost — outside the known class K19 *)
-Theorem C19_doc_text_lossless : forall docs,
-  k19_class docs = false -> shown (extract docs) = declared_text docs.
+(* no text of the comment itself is lost, for every comment (full strength:
+   the former class K19 — a '*' that is text in a block not uniformly
+   star-decorated — was repaired by fix 9fd4ea2).  [declared_text] reads a
+   leading '*' of the continuation lines as decoration exactly when every
+   non-blank continuation line of the attribute carries it, otherwise as
+   text; the code's [decorated] test is the same predicate
+   (DocCommentProofs.is_decorated_spec). *)
+Theorem C19_doc_text_lossless : forall docs, shown (extract docs) = declared_text docs.
 Proof. exact doc_lossless_declared. Qed.
 
-(* the full-strength statement, kept visible: false because of K19 *)
-Definition C19_doc_text_lossless_full_statement : Prop :=
-  forall docs, shown (extract docs) = declared_text docs.
-
-(* K19: in a multi-line doc attribute (a block comment) that is not uniformly
-   star-decorated, a line starting with '*' loses the star: the shown text is
-   always strictly shorter than the comment's *)
-Theorem C19_K19_refuted : forall docs,
-  k19_class docs = true ->
-  (length (shown (extract docs)) < length (declared_text docs))%nat.
-Proof. exact k19_refuted. Qed.
-
-(* line comments (one attribute per line) are never affected *)
-Theorem C19_line_comments_lossless : forall docs,
-  forallb (fun s => forallb (fun c => negb (c =? NL)) s) docs = true -> k19_class docs = false.
-Proof. exact line_comments_never_k19. Qed.
+(* an attribute that is not star-decorated keeps every line (trimmed) *)
+Theorem C19_undecorated_keeps_lines : forall s first rest,
+  split_nl s = first :: rest -> decorated rest = false ->
+  normalize s = map trim (first :: rest).
+Proof. exact undecorated_keeps_lines. Qed.
 
 (* and so the document shows all of the comment's text *)
 Theorem C19_documented_text_lossless : forall st a e,
-  expand st a = Ok e -> k19_class (a_docs a) = false ->
+  expand st a = Ok e ->
   nonblank (opt_str (e_summary e)) ++ nonblank (opt_str (e_description e))
   = declared_text (a_docs a).
 Proof. exact documented_text_lossless. Qed.
 
 (* the decidable form of the clause used to judge implementation runs *)
-Theorem C19_doc_lossless_b_iff_outside_K19 : forall docs,
-  (k19_class docs = false -> doc_lossless_b docs (extract docs) = true) /\
-  (k19_class docs = true -> doc_lossless_b docs (extract docs) = false).
-Proof. exact (fun docs => conj (doc_lossless_b_ok docs) (k19_doc_lossless_b_false docs)). Qed.
+Theorem C19_doc_lossless_b : forall docs, doc_lossless_b docs (extract docs) = true.
+Proof. exact doc_lossless_b_ok. Qed.
 
 (* ---- 4. the syntax of [versions] ---- *)
 
@@ -207,11 +199,11 @@ Proof. exact bad_content_type_refused. Qed.
    harness observes of one declaration in the three styles: registration,
    routing at every probe version and unversioned, the documented operation at
    every probe version, agreement of the styles, and the doc-comment clause.
-   For every accepted declaration outside K19 (constants named in [versions]
-   holding printable versions) the model's own behaviour satisfies all of it,
+   For every accepted declaration (constants named in [versions] holding
+   printable versions) the model's own behaviour satisfies all of it,
    at any list of probe versions. *)
 Theorem C19_model_meets_spec : forall a vs,
-  accepted a = true -> k19_class (a_docs a) = false -> versions_wf (a_versions a) = true ->
+  accepted a = true -> versions_wf (a_versions a) = true ->
   forallb (fun s => is_some (Semver.parse s)) vs = true ->
   spec_decl a (map (model_ep a) styles) (map (model_route a None) styles)
     (map (model_probe a) vs) = (true, true).
@@ -261,16 +253,24 @@ Example C19_example_refusals :
 Proof. vm_compute. repeat split. Qed.
 
 Example C19_example_meets_spec_hypotheses :
-  accepted ex_attr = true /\ k19_class (a_docs ex_attr) = false /\
+  accepted ex_attr = true /\
   versions_wf (a_versions ex_attr) = true /\ compiles ex_attr = true.
 Proof. vm_compute. repeat split. Qed.
 
-(* K19 is inhabited: "\n Summary\n * bullet\n text\n " *)
-Example C19_K19_witness :
+(* the former K19 witness "\n Summary\n * bullet\n text\n ": the star is kept;
+   and a decorated block "\n * Summary\n * * bullet\n *text\n " loses exactly
+   its decoration *)
+Example C19_former_K19_witness :
   let d := [[10;32;83;117;109;109;97;114;121;10;32;42;32;98;117;108;108;101;116;10;32;116;101;120;116;10;32]] in
-  k19_class d = true /\
-  shown (extract d) = [83;117;109;109;97;114;121;98;117;108;108;101;116;116;101;120;116] /\
+  summary (extract d) = Some [83;117;109;109;97;114;121] /\
+  description (extract d) = Some [42;32;98;117;108;108;101;116;32;116;101;120;116] /\
   declared_text d = [83;117;109;109;97;114;121;42;98;117;108;108;101;116;116;101;120;116].
+Proof. vm_compute. repeat split. Qed.
+
+Example C19_decorated_block :
+  let d := [[10;32;42;32;83;117;109;109;97;114;121;10;32;42;32;42;32;98;117;108;108;101;116;10;32;42;116;101;120;116;10;32]] in
+  summary (extract d) = Some [83;117;109;109;97;114;121] /\
+  description (extract d) = Some [42;32;98;117;108;108;101;116;32;116;101;120;116].
 Proof. vm_compute. repeat split. Qed.
 
 Print Assumptions C19_fields_as_declared.
@@ -284,10 +284,9 @@ Print Assumptions C19_doc_lossless.
 Print Assumptions C19_summary_first_line.
 Print Assumptions C19_summary_description_split.
 Print Assumptions C19_doc_text_lossless.
-Print Assumptions C19_K19_refuted.
-Print Assumptions C19_line_comments_lossless.
+Print Assumptions C19_undecorated_keeps_lines.
+Print Assumptions C19_doc_lossless_b.
 Print Assumptions C19_documented_text_lossless.
-Print Assumptions C19_doc_lossless_b_iff_outside_K19.
 Print Assumptions C19_literal_plain.
 Print Assumptions C19_literal_refusals.
 Print Assumptions C19_literal_pair_order.
